@@ -5,7 +5,14 @@ VARIABLE h
 \* intervals of root ids (a range filter on a monotone feature)
 MCPreds == {1..5, 2..4, 1..3, 3..5, 2..2}
 HHInit == HInit /\ h = <<>>
-HHNext == /\ \/ (Alternate => last.a \in {"init", "rejuvenate"}) /\ EditStep
+\* free interleavings (Alternate = FALSE, simulation) leave the assignment of
+\* temporary features through a level out: with other edits pending it loses
+\* manual edits (known finding, explored by TempNext alone)
+EditNoTemp == \/ \E l \in Levels, P \in Preds : SetPred(l, P)
+              \/ \E l \in Levels, i \in 1..N : Exclude(l, i) \/ Include(l, i)
+              \/ \E v \in {1, 2} : SetRootVer(v)
+HHNext == /\ \/ (Alternate => last.a \in {"init", "rejuvenate"})
+                /\ (IF Alternate THEN EditStep ELSE EditNoTemp)
              \/ (Alternate => last.a \notin {"init", "rejuvenate"}) /\ Rejuvenate
           /\ h' = Append(h, last')
 \* focused run: range filters only on the root, manual edits only on the
